@@ -477,24 +477,24 @@ loop:
 			// otherwise fail this call only.
 			if ctx.Err() != nil {
 				canceledIndex = i
-				ok = false
 				break loop
 			}
-			ok = false
-			unretryableError = true
 			select {
 			case res := <-rpc.ResultChan():
 				results[rpcToRes[rpc]] = res
 				if res.Error != nil {
 					c.handleResultError(res.Error, rpc.Region(), rc)
+					ok = false
+					unretryableError = true
 				}
 			default:
 				results[rpcToRes[rpc]].Error = rpc.Context().Err()
+				ok = false
+				unretryableError = true
 			}
 
 		case <-ctx.Done():
 			canceledIndex = i
-			ok = false
 			break loop
 		}
 	}
@@ -503,15 +503,20 @@ loop:
 	// without checking for every result. Do a non-blocking read of
 	// the ResultChan for the remaining RPCs. If not ready the result
 	// will be the context error.
+	// The batch did not complete successfully only if one of those results
+	// is missing or is an error: a result that had already arrived when the
+	// context ended is as good as one that arrived before.
 	for _, rpc := range rpcs[canceledIndex:] {
 		select {
 		case res := <-rpc.ResultChan():
 			results[rpcToRes[rpc]] = res
 			if res.Error != nil {
 				c.handleResultError(res.Error, rpc.Region(), rc)
+				ok = false
 			}
 		default:
 			results[rpcToRes[rpc]].Error = ctx.Err()
+			ok = false
 		}
 	}
 
